@@ -1155,6 +1155,10 @@ class DiameterHeader(object):
         """Load a byte stream which represents Diameter Headers and returns a 
         list of DiameterHeader objects.
         """
+        if len(stream) < DIAMETER_HEADER_LENGTH:
+            raise DiameterHeaderError("invalid bytes stream. It does not "\
+                                      "contain a complete Diameter Header")
+
         version  = convert_to_1_byte(stream[0])
         length = stream[1:4]        
         flags = convert_to_1_byte(stream[4])
@@ -1436,6 +1440,11 @@ class DiameterMessage:
         while index < len(stream):
             header_stream = stream[index:index+DIAMETER_HEADER_LENGTH]
             header = DiameterHeader.load(header_stream)
+
+            if header.get_length() < DIAMETER_HEADER_LENGTH:
+                raise DiameterMessageError("invalid bytes stream. The Message "\
+                                           "Length field is smaller than the "\
+                                           "Diameter Header")
 
             lower_limit = index + DIAMETER_HEADER_LENGTH
             upper_limit = index + header.get_length()
